@@ -140,15 +140,18 @@ func (em *emitter) comparisonWithZeroInteger(cond *ast.BinaryOperator) ast.Expre
 
 // compositeLiteralLen returns the length of a composite literal.
 func (em *emitter) compositeLiteralLen(node *ast.CompositeLiteral) int {
+	// The length is the maximum index plus one, where the index of an
+	// element without a key is the index of the previous element plus one.
 	size := 0
+	index := 0
 	for _, kv := range node.KeyValues {
 		if kv.Key != nil {
-			key := int(em.ti(kv.Key).Constant.int64())
-			if key > size {
-				size = key
-			}
+			index = int(em.ti(kv.Key).Constant.int64())
 		}
-		size++
+		index++
+		if index > size {
+			size = index
+		}
 	}
 	return size
 }
